@@ -9,6 +9,7 @@ import hashlib
 import json
 import os
 import sys
+import time
 
 sys.path.insert(0, os.path.dirname(os.path.abspath(__file__)))
 import boot  # noqa: E402
@@ -44,6 +45,7 @@ def filler(n):
 
 def main():
   reused = {}
+  t0 = 0.0     # the first answer also accounts for starting the process and importing pytype
   for line in sys.stdin:
     req = json.loads(line)
     opt = req.get("opt", "default")
@@ -78,6 +80,8 @@ def main():
              "pyi": pyi}
     except Exception as e:  # pylint: disable=broad-except
       out = {"obs": ["exc:" + type(e).__name__, sha(str(e)), ""], "errs": [], "nraw": 0, "pyi": ""}
+    out["cpu"] = round(time.process_time() - t0, 3)
+    t0 = time.process_time()
     sys.stdout.write(json.dumps(out) + "\n")
     sys.stdout.flush()
 
